@@ -470,7 +470,10 @@ class Program:
                 idx = slice(f(sl.lower) if sl.lower is not None else None, f(sl.upper) if sl.upper is not None else None, f(sl.step) if sl.step is not None else None)
             else:
                 idx = f(node.slice)
-            return base[idx]
+            try:
+                return base[idx]
+            except (KeyError, IndexError, TypeError):
+                raise CannotFold(f"subscript fails: {unparse(node)[:60]}")
         if isinstance(node, ast.BoolOp):
             vals = [f(v) for v in node.values]          # constants: evaluation order / short-circuit do not matter
             res = vals[0]
